@@ -371,7 +371,9 @@ class Committed:
         elif c['op'] == 'copy':
             if c['dst'] in post.recs and c['src'] in self.cur and post.recs[c['dst']]['cur'] == post.recs.get(c['src'], {}).get('cur'):
                 self.cur[c['dst']] = self.cur[c['src']]
-            elif c['dst'] in post.recs and c['dst'] not in pre.recs:
+            elif c['dst'] in post.recs and (c['dst'] not in pre.recs or post.recs[c['dst']]['cur'] != pre.recs[c['dst']]['cur']):
+                # the destination now names a version the harness has not seen committed (e.g. `copy --force` onto a
+                # tracked path from a source whose object was removed from the cache): nothing is claimed for it
                 self.cur.pop(c['dst'], None)
         elif c['op'] == 'move':
             if c['dst'] in post.recs and c['src'] not in post.recs:
@@ -663,6 +665,10 @@ CORPUS = [
         'carryin\t-\t0\ta.txt\tünï/dätä.txt\td/h.bin', 'copy\thardlink\t0\t0\td/h.bin\tg.bin', 'copy\tcopy\t0\t0\tg.bin\td/h.bin',
         'write\td/h.bin\t616c7068610a626574610a67616d6d610a233735', 'track\t-\tbinary\t0\t0\tg.bin\td/h.bin',
         'track\tcopy\tauto\t0\t0\tg.bin\tünï/dätä.txt\td/h.bin', 'carryin\ttext\t0\ta.txt', 'remove\t0\t1\tg.bin']]),
+    # F27 (fixed): a hard link whose object was removed from the cache stays a read-only file (F23); untrack must still hand
+    # back a writable file
+    ('F27', DEF, [W('.hidden', b'l1\r\nl2\r\n'), T(['.hidden'], method='hardlink'), RC(['.hidden'], no_parallel=True),
+                  {'op': 'remove', 'targets': ['.hidden'], 'all_versions': True}, {'op': 'untrack', 'targets': ['.hidden']}]),
     ('versions', DEF, [W('a.txt', b'v1\n'), T(['a.txt']), W('a.txt', b'v2\n'), CI(['a.txt']), W('a.txt', b'v3\n'), T(['a.txt']), {'op': 'delete', 'path': 'a.txt'}, RC(['a.txt'], method='hardlink')]),
     ('share', {'algo': 2, 'method': 'hardlink', 'tob': 'auto'}, [W('a.txt', b'dup\n'), W('b.txt', b'dup\n'), T(['a.txt', 'b.txt']), {'op': 'remove', 'targets': ['a.txt']},
                                                                   {'op': 'untrack', 'targets': ['a.txt']}, RC(['b.txt'], method='copy')]),
